@@ -204,7 +204,8 @@ class World:
     def __init__(self, n, r, c):
         import optyx
         from optyx.core import matrices as M
-        from optyx.core.functions import abs_
+        from optyx.core.functions import abs_, sin
+        from optyx.core.expressions import Constant
 
         self.n, self.r, self.c = n, r, c
         self.x, self.y = optyx.Variable("x"), optyx.Variable("y")
@@ -225,11 +226,25 @@ class World:
             ("mv", (c, c), self.S),
             ("me", (r, c), self.A - self.B), ("me", (r, c), 2 * self.B + 1), ("me", (r + 1, c), self.C * 2),
             ("epow", (n,), self.v ** 2), ("eun", (n,), abs_(self.w)),
+            # constant-valued compound expressions where a number can stand
+            ("e", (), Constant(2) * Constant(3) - 1), ("e", (), self.p), ("e", (), 0 * self.y + 1.5), ("e", (), sin(Constant(0.5)) + self.p * 2),
+            # wrappers around reduction nodes at the root
+            ("e", (), 3 - 2 * self.w.sum()), ("e", (), -(self.v.dot(self.v)) / 2), ("e", (), (self.A * self.A).sum() - self.S.trace()),
+            # further vector-like / matrix-like objects: strided view, slice of a slice, matrix row / column / diagonal,
+            # strided block and transposed slice of a symmetric matrix, 1 x c and r x 1 blocks
+            ("vv", (len(range(n)[::2]),), self.v[::2]), ("vv", (n,), self.w[::-1][0:n]), ("vv", (c,), self.A[0, :]), ("vv", (r,), self.A[:, -1]),
+            ("vv", (c,), self.S.diagonal()), ("mv", (c, c), self.S[::-1, :]), ("mv", (r, c), self.A.T[:, ::-1].T),
+            ("mv", (1, c), self.A[0:1, :]), ("mv", (r, 1), self.B[:, 0:1]), ("me", (c, c), self.S - self.S.T * 2),
         ]
         self.ops = []
         for kind, shape, o in objs:
-            self.ops.append(Op(kind, shape, (lambda o=o: o), (lambda ids, o=o: optyx_sexp(o, ids)),
-                               (lambda pt, o=o, shape=shape: self.value(o, shape, pt))))
+            op = Op(kind, shape, (lambda o=o: o), (lambda ids, o=o: optyx_sexp(o, ids)),
+                    (lambda pt, o=o, shape=shape: self.value(o, shape, pt)))
+            try:
+                op.uses_p = kind == "e" and '(p "p"' in Ser(with_ids=False).expr(o)
+            except Unsupported:
+                op.uses_p = False
+            self.ops.append(op)
         self.ops += literal_ops(n, r, c)
         # one representative per optyx receiver kind, to be paired with every numeric operand kind
         self.partners = [self.ops[i] for i in (0, 1, 5, 8, 11, 12, 17)]
@@ -311,7 +326,8 @@ def semantic_check(rel, lop, rop, res, pt):
         return {"what": "number of constraints differs from the number of elements", "n": len(cs), "elements": int(len(L))}
     for i, c in enumerate(cs):
         l, r = float(L[i]), float(Rr[i])
-        want_v, want_s = expected_violation(rel, l, r), relation_holds(rel, l, r)
+        want_v = expected_violation(rel, l, r)
+        want_s = want_v <= 1e-8            # the documented default tolerance; equals the relation itself on dyadic points
         try:
             got_v, got_s = c.violation(pt), c.is_satisfied(pt)
         except Exception as ex:  # noqa: BLE001
@@ -326,7 +342,9 @@ def semantic_check(rel, lop, rop, res, pt):
             return {"what": "constraint does not mean the written relation", "index": i, "lhs": l, "rhs": r,
                     "violation": got_v, "want_violation": want_v, "satisfied": bool(got_s), "want_satisfied": bool(want_s)}
         # tolerance: satisfied with tol iff violation <= tol
-        for tol in (0.0, 0.25, 10.0):
+        if bool(c.is_satisfied(pt, tol=0.0)) != relation_holds(rel, l, r):
+            return {"what": "is_satisfied(tol=0) differs from the relation itself", "index": i, "lhs": l, "rhs": r}
+        for tol in (0.0, 1e-300, 1e-12, 1e-8, 0.25, 10.0, 1e16):
             if bool(c.is_satisfied(pt, tol=tol)) != (want_v <= tol):
                 return {"what": "is_satisfied(tol) differs from violation <= tol", "index": i, "tol": tol, "violation": want_v}
     return None
@@ -396,6 +414,59 @@ def scipy_check(rel, cs, pt_names, pt, rep, lr=None):
                               "index": i, "sense": c.sense, "fun": f, "lhs": l, "rhs": r})
         out.append((c, variables, f, j))
     return fails, out
+
+
+# ------------------------------------------------------------------ magnitudes and the tolerance boundary
+
+MAGS = [0.0, 1e-300, -1e-300, 1e-12, -1e-12, 1e-9, -1e-9, 9.9e-9, 1.01e-8, 1e-7, -1e-7, 1.0, -2.5, 1e8, -1e8, 1e16, -1e16, 1.5e17, 1e300]
+DELTAS = [0.0, 5e-9, -5e-9, 1e-8, -1e-8, 1.5e-8, -1.5e-8, 9.999e-9, 1.0001e-8, 1e-7, -1e-7, 1e-300, -1e-300, 1.0, -1.0]
+
+
+def magnitude_family(W, rng, rep):
+    """rhs constants from 1e-300 to 1e300 (both signs, exact 0) against a scalar, a vector and a matrix variable, probed at
+    points ON the boundary lhs == rhs and within 1e-9 .. 1e-7 of it on both sides (the default tolerance of is_satisfied
+    is 1e-8): violation, is_satisfied(tol) and the SciPy dict must follow the relation between the variable's value and
+    the constant exactly"""
+    from optyx.constraints import Constraint
+
+    fails = []
+    recvs = [W.ops[0], W.ops[5], W.ops[12]]
+    for recv in recvs:
+        names = [v.name for e in elems_of(recv.make()) for v in World.vars_of(e)]
+        for cval in MAGS:
+            cop = Op("pyfloat", (), (lambda cval=cval: cval), (lambda ids, cval=cval: f"(float {rat(cval)})"),
+                     (lambda pt, cval=cval: np.asarray(float(cval))))
+            for rel in ("le", "ge", "eq"):
+                for lop, rop in ((recv, cop), (cop, recv)):
+                    if rel == "eq" and lop is cop:
+                        continue
+                    try:
+                        res = do_compare(rel, lop.make(), rop.make())
+                    except Exception as ex:  # noqa: BLE001
+                        fails.append({"what": "a comparison with a plain number raised", "error": f"{type(ex).__name__}: {ex}"[:120],
+                                      "cell": f"{lop.kind}:{rop.kind}", "rel": rel, "value": cval})
+                        continue
+                    deltas = list(DELTAS)
+                    rng.shuffle(deltas)
+                    for k in range(0, len(deltas), max(1, len(names))):
+                        pt = {nm: 0.0 for nm in W.names}
+                        for i, nm in enumerate(names):
+                            pt[nm] = cval + deltas[(k + i) % len(deltas)]
+                        r_ = semantic_check(rel, lop, rop, res, pt)
+                        rep.histogram["magnitude-points"] = rep.histogram.get("magnitude-points", 0) + 1
+                        if r_ not in (None, "skip"):
+                            r_.update({"cell": f"{lop.kind}:{rop.kind}", "rel": rel, "left": lop.sexp(Ids()), "right": rop.sexp(Ids()),
+                                       "point": {nm: pt[nm] for nm in names}, "family": "magnitude"})
+                            fails.append(r_)
+                            break
+                    else:
+                        cs = [res] if isinstance(res, Constraint) else res
+                        f2, _p = scipy_check(rel, cs[:3], W.names, pt, rep, lr=operand_pairs(lop, rop, pt))
+                        for f in f2:
+                            f.update({"cell": f"{lop.kind}:{rop.kind}", "rel": rel, "left": lop.sexp(Ids()), "right": rop.sexp(Ids()),
+                                      "point": {nm: pt[nm] for nm in names}, "family": "magnitude"})
+                            fails.append(f)
+    return fails
 
 
 # ------------------------------------------------------------------ whole problems through the minimize seam
@@ -469,8 +540,25 @@ def gen_solver_problem(rng):
     for _ in range(rng.randint(4, 8)):
         k = rng.randint(1, min(5, len(allv) - 1))
         vs = rng.sample(allv, k)
-        form = rng.choice(["lin", "lin", "pow", "prod", "trig", "slice-lc", "slice-dot", "mixed"])
-        if form == "slice-lc" and vecs:
+        form = rng.choice(["lin", "lin", "pow", "prod", "trig", "slice-lc", "slice-dot", "mixed", "reduce-wrap", "reduce-wrap"])
+        if form == "reduce-wrap" and (vecs or mats):
+            # a vector / matrix reduction node at (or one wrapper away from) the root, over a view that is a strict subset
+            if vecs and (not mats or rng.random() < 0.7):
+                vv = rng.choice(vecs)
+                n = len(vv)
+                view = vv if n <= 3 else vv[rng.randint(0, 2):n:rng.choice([1, 2, 3])] if rng.random() < 0.8 else vv[::-1]
+                red = rng.choice([lambda: view.sum(), lambda: view.dot(view), lambda: (view ** 2).sum(), lambda: (view ** 3).sum(),
+                                  lambda: np.array([coef() for _ in range(len(view))]) @ view, lambda: (2 * view - 1).sum(),
+                                  lambda: view.norm(1) if False else (view * view).sum(),
+                                  lambda: optyx.core.matrices.QuadraticForm(view, np.array([[coef() for _ in range(len(view))] for _ in range(len(view))]))])()
+            else:
+                m = rng.choice(mats)
+                mview = rng.choice([m, m.T, m[:, ::2], m[0:1, :]])
+                red = rng.choice([lambda: mview.sum(), lambda: (mview * mview).sum(), lambda: (2 * mview + 1).sum()])()
+            k_ = coef()
+            e = rng.choice([lambda: red, lambda: -red, lambda: k_ * red, lambda: red * k_, lambda: red / 2, lambda: red + k_, lambda: k_ - red,
+                            lambda: -(k_ * red) + 1.0, lambda: (red - 1.0) * k_, lambda: red + coef() * vs[0]])()
+        elif form == "slice-lc" and vecs:
             vv = rng.choice(vecs)
             n = len(vv)
             view = vv[rng.randint(0, 2):n:rng.choice([2, 3, 4, 5])]
@@ -504,7 +592,7 @@ def gen_solver_problem(rng):
     for i in order:
         prob.subject_to(cons[i])
     return {"problem": prob, "constraints": [cons[i] for i in order], "vars": allv, "names": sorted(v.name for v in allv),
-            "decls": decls, "method": rng.choice(["SLSQP", "SLSQP", "trust-constr"])}
+            "decls": decls, "method": rng.choice(["SLSQP", "SLSQP", "trust-constr", "COBYLA", "auto"])}
 
 
 def problem_desc(sp):
@@ -658,10 +746,12 @@ def run(ctx) -> core.Report:
                 rep.oracle_failures.append(f)
 
     # real operators
-    results = []
+    results, snaps = [], []
     for W, lop, rop, rel in metas:
+        a_, b_ = lop.make(), rop.make()
+        snaps.append([(x, x.copy(), x.dtype, x.strides) for x in (a_, b_) if isinstance(x, np.ndarray)])
         try:
-            res = do_compare(rel, lop.make(), rop.make())
+            res = do_compare(rel, a_, b_)
         except Exception as ex:  # noqa: BLE001
             res = R.PyErr(type(ex).__name__)
         results.append(res)
@@ -671,8 +761,12 @@ def run(ctx) -> core.Report:
 
     probe_lines, probe_meta = [], []
     f21_seen = f24_seen = False
-    for (W, lop, rop, rel), res in zip(metas, results):
+    for (W, lop, rop, rel), res, snap in zip(metas, results, snaps):
         cell = f"{lop.kind}:{rop.kind}"
+        for arr, copy, dt, strides in snap:
+            # the caller's arrays must come back bit-identical from a comparison
+            if arr.dtype != dt or arr.strides != strides or not np.array_equal(arr, copy, equal_nan=True):
+                rep.oracle_failures.append({"what": "a user-supplied array was modified by a comparison", "cell": cell, "rel": rel})
         txt = outcome_text(res)
         hk = txt.split(" ")[0] if not txt.startswith("raise:") else txt
         rep.histogram[hk] = rep.histogram.get(hk, 0) + 1
@@ -714,6 +808,18 @@ def run(ctx) -> core.Report:
             elif r_ is not None:
                 r_.update({"cell": cell, "rel": rel, "left": lop.sexp(Ids()), "right": rop.sexp(Ids()), "point": pt})
                 rep.oracle_failures.append(r_)
+            # history on the shared Parameter: after p.set(...) the same constraint objects must follow the new value
+            if k == 0 and (getattr(lop, "uses_p", False) or getattr(rop, "uses_p", False)):
+                old_p = W.p.value
+                for newp in (0.0, -1.25, 1.0):
+                    W.p.set(newp)
+                    r2 = semantic_check(rel, lop, rop, res, pt)
+                    if r2 not in (None, "skip"):
+                        r2.update({"cell": cell, "rel": rel, "left": lop.sexp(Ids()), "right": rop.sexp(Ids()), "point": pt,
+                                   "parameter_set_to": newp})
+                        rep.oracle_failures.append(r2)
+                    rep.histogram["param-history"] = rep.histogram.get("param-history", 0) + 1
+                W.p.set(old_p)
             # model probes (first and last constraint of a list)
             for c in {id(cs[0]): cs[0], id(cs[-1]): cs[-1]}.values():
                 try:
@@ -740,6 +846,10 @@ def run(ctx) -> core.Report:
                     store = "(" + f"({ids.of(W.p)} {rat(W.p.value)})" + ")"
                     probe_lines.append(f"scipy {sense} {e} {vs} {env_text(full)} {store}")
                     probe_meta.append(("scipy", c, full, (fval, jac)))
+
+    # --- magnitudes of the stored right-hand side and points on / just off the satisfaction boundary
+    for f in magnitude_family(World(*shapes[0]), rng, rep):
+        rep.oracle_failures.append(f)
 
     # --- whole problems through the solver seam: constraints over strict subsets of the problem's variables
     n_prob = 160 if thorough else 45
@@ -875,6 +985,11 @@ def replay(payload) -> bool:
         for x in fails:
             print({k: x[k] for k in x if k not in ("problem", "point", "variables")})
         return not fails
+    if f.get("family") == "magnitude":
+        fs = magnitude_family(World(3, 2, 3), core.Rng(payload.get("seed", 0)), core.Report())
+        for x in fs[:3]:
+            print({k: x[k] for k in x if k != "point"})
+        return not fs
     if "shape" not in f and "cell" in f and "point" not in f:
         print("structural finding:", f.get("what"))
         return False
